@@ -84,10 +84,10 @@ func (r *refRig) setup(init string) {
 	switch init {
 	case "empty":
 	case "pod":
-		cl.AddPod(r.name("p1"))
+		addPod(cl, r.name("p1"))
 	case "node", "node+wl":
-		cl.AddPod(r.name("p1"))
-		cl.AddNode(ckit.NodeSpec{Name: r.name("n1"), Pod: r.name("p1"), CPU: 4, Memory: 8 << 30})
+		addPod(cl, r.name("p1"))
+		addNode(cl, ckit.NodeSpec{Name: r.name("n1"), Pod: r.name("p1"), CPU: 4, Memory: 8 << 30})
 		if init == "node+wl" {
 			ok := r.run(opJ{Op: "create", N: "n1", W: 9})
 			if !ok {
